@@ -43,7 +43,7 @@ CHECKS = [
   "small-scope: longer streams and larger buffers are not enumerated; the reader has no state beyond buf/off, whose interesting transitions (grow, reslice, CR before LF across a read boundary) all occur within the bound",
   "exhaustive small-scope input/chunking enumeration on the real code", "§3 C15"),
  ("C21", "seqx", "exploration",
-  "all sorted boundary lists of length 2-3 over {-1,0,0.5,1,2} × all observation sequences of length <=2 (thorough 3) over boundaries, their float neighbours, -5, 1e300, ±Inf, NaN, through a compiled histogram program, the VM and the Prometheus exposition",
+  "all sorted boundary lists of length 2-3 over {-1,0,0.5,1,2} × all observation sequences of length <=2 (thorough 3) over boundaries, their float neighbours, -5, 1e300, ±Inf, NaN, through a compiled histogram program, the VM and the Prometheus exposition of one exporter scraped before the first and after every observation, with processing-time stamps and with one fixed stamp for all observations",
   "boundary lists longer than 3 and other boundary values are not enumerated",
   "exhaustive small-scope enumeration of declarations and observation sequences on the real compiler/VM/exporter", "§3 C21"),
  ("C12", "gosim", "fault_enumeration",
@@ -55,7 +55,7 @@ CHECKS = [
   "store domain is small-scope; expfmt's parser is trusted as the definition of valid exposition text",
   "exhaustive small-scope enumeration of stores against the exposition-format parser of the standard client library", "§3 C13"),
  ("C22", "seqx", "exploration",
-  "all single-metric stores over 7 kind/type shapes x key lists {[], [a], [b,a]} x all label-set contents of size<=2 x value rotations (ints, floats incl. non-finite, strings, histogram observation sets) and pairs with a second program's metric, x prefix x hostname; formats varz, graphite (HTTP and push formatter), statsd, collectd, JSON; each output parsed by an independent per-format parser: exactly one well-formed record per (metric, label set) in scope carrying that label set's own value and timestamp",
+  "all single-metric stores over 7 kind/type shapes x key lists {[], [a], [b,a]} x all label-set contents of size<=2 over {x, y%d, z1} x value rotations (ints, floats incl. non-finite, strings incl. control characters, quotes and backslashes, histogram observation sets) and pairs with a second program's metric, x prefix x hostname; formats varz, graphite (HTTP and push formatter), statsd, collectd, JSON; each output parsed by an independent per-format parser: exactly one well-formed record per (metric, label set) in scope carrying that label set's own value and timestamp",
   "label values are free of blanks and of the target formats' separators (the property's precondition); kinds outside a format's scope are neither required nor forbidden",
   "exhaustive small-scope enumeration of stores with independent per-format parsers as oracle", "§3 C22"),
  ("C06", "hsx", "model_checking",
@@ -63,7 +63,7 @@ CHECKS = [
   "default (deviation-free) schedule with a quiescence barrier after each step; states are de-duplicated on observable state plus a reflective dump of the whole Runtime object graph (unexported fields included), so hidden implementation state is not merged away",
   "explicit-state model checking of the implementation (multi-process BFS, replay from the initial state, differential oracle)", "§3 C06"),
  ("C14", "hsx", "model_checking",
-  "explicit-state BFS from 'V0 loaded' (depth 4-5; thorough 5-7) over histories of {load(Vi) for 10 versions of one file: identical, comment appended, declaration moved, kind / value type / keys changed, syntax error, name clashing with another program, body-only edit; lines creating label sets, one with an old stamp and pending expiry, marking expiry; Store.Gc; unload}, with and without a second program, with OmitMetricSource, with a metric size limit, with loads through LoadAllPrograms on a program directory, and for a scalar counter next to the dimensioned one: identical source changes neither store nor VM identity; a failed load leaves store and VM untouched and stays invisible in every continuation (differential: same history without the failed loads); a kept declaration keeps label sets, values and expiry marks; no two registered metrics of the program share a name and a label set; every metric's slice and index agree",
+  "explicit-state BFS from 'V0 loaded' (depth 4-5; thorough 5-7) over histories of {load(Vi) for 10 versions of one file: identical, comment appended, declaration moved, kind / value type / keys changed, syntax error, name clashing with another program, body-only edit; lines creating label sets, one with an old stamp and pending expiry, marking expiry; Store.Gc; unload}, with and without a second program, with OmitMetricSource, with a metric size limit, with loads through LoadAllPrograms on a program directory, for a scalar counter next to the dimensioned one, and for histogram declarations (same buckets, one boundary changed, one added; lines observing values): identical source changes neither store nor VM identity; a failed load leaves store and VM untouched and stays invisible in every continuation (differential: same history without the failed loads); a kept declaration keeps label sets, values and expiry marks; no two registered metrics of the program share a name and a label set; every metric's slice and index agree; a registered histogram's data are bucketed by the declared boundaries and its bucket counts sum to its count",
   "default schedule with quiescence barriers (reload racing a line in flight is C20); export observed as the store contents registered for the program; state key includes a reflective dump of the Runtime object graph",
   "explicit-state model checking of the implementation (multi-process BFS, replay from the initial state, invariants + differential oracle)", "§3 C14"),
  ("C16", "hsx", "model_checking",
@@ -75,15 +75,15 @@ CHECKS = [
   "stream wake-ups and pattern polls are explicit operations, so changes may pile up between polls; renames onto an existing file are rotations (C16) and not generated; unreadable files and symlinks not generated; no state merging",
   "explicit-state exploration of the implementation over file-system histories (multi-process BFS, replay from the initial state, set reference model)", "§3 C18"),
  ("C26", "hsx", "model_checking",
-  "explicit-state BFS (depth 3; thorough 4-5) over histories of {write(file, contents T1/T2/broken), remove, rename to/from another program name / a non-.mtail name / a dot-name, mkdir of a matching name} on a real program directory holding a.mtail, b.mtail, .h.mtail, notes.txt, sub/c.mtail, each step followed by LoadAllPrograms and a probe line on the real Runtime under the controlled scheduler; per transition: running set and the contents each program was compiled from equal the model, the probe line moves exactly the marker counter of each running version, prog_loads_total / prog_unloads_total move by the model's event counts",
+  "explicit-state BFS (depth 3; thorough 4-5) over histories of {write(file, contents T1/T2/broken/empty), remove, rename to/from another program name / a non-.mtail name / a dot-name, mkdir of a matching name, a program file replaced by a directory of its name} on a real program directory holding a.mtail, b.mtail, .h.mtail, notes.txt, sub/c.mtail, each step followed by LoadAllPrograms and a probe line on the real Runtime under the controlled scheduler; per transition: running set and the contents each program was compiled from equal the model, the probe line moves exactly the marker counter of each running version, prog_loads_total / prog_unloads_total move by the model's event counts",
   "LoadAllPrograms is called directly (as the SIGHUP handler does); states de-duplicated on the model plus a reflective dump of the Runtime object graph",
   "explicit-state model checking of the implementation over directory histories (multi-process BFS, replay from the initial state, map reference model)", "§3 C26"),
  ("C19", "gosim", "exploration",
-  "all schedules with <=1 deviation (thorough: 2 for single-program scenarios) of the whole one-shot pipeline wired by mtail.New + Run (tailer, file streams, runtime fan-out, VMs, exporter; 8 instrumented packages) on real files, for program sets of size 1-2 (thorough: all, plus size 3) from {line counter, counter by getfilename(), per-file last-number gauge, a program that stops, a program that raises runtime errors} x file sets of size 1-2 (thorough 3) from {empty, 1 line, 2 lines, unterminated last line, blank line} (quick: a fixed fifth of the grid): Run returns, no thread is left blocked, lines_total = number of lines, final store = reference",
+  "all schedules with <=1 deviation (thorough: 2 for single-program scenarios) of the whole one-shot pipeline wired by mtail.New + Run (tailer, file streams, runtime fan-out, VMs, exporter; 8 instrumented packages) on real files, for program sets of size 1-2 (thorough: all, plus size 3) from {line counter, counter by getfilename(), per-file last-number gauge, a program whose last instruction is a stop, a program that raises runtime errors} x file sets of size 1-2 (thorough 3) from {empty, 1 line, 2 lines, unterminated last line, blank-line shapes, two lines of which the first stops the stopping program, an untailable match} (quick: a fixed fifth of the grid): Run returns, no thread is left blocked, lines_total = number of lines, final store = reference",
   "scheduling points are synchronisation operations; file reads are synchronous steps; program sets chosen so the expected store is independent of the file interleaving; the prometheus registry's DescribeByCollect goroutine takes the free store lock directly",
   "stateless model checking of the implementation under a controlled scheduler (iterative deviation bounding, DFS, replay-confirmed counterexamples)", "§3 C19"),
  ("C25", "hsx", "model_checking",
-  "all applicable histories of length <=4 (thorough 5) over {append integer / non-integer line to log a or b, append a fragment, write p.mtail as ok / runtime-error-raising / non-compiling / unregistrable version and reload, remove p.mtail and reload, poll} on the whole pipeline wired by mtail.New in tailing mode under the controlled scheduler, with and without a second program; after every step lines_total, log_lines_total per log, log_count, prog_runtime_errors_total, prog_loads_total, prog_unloads_total, prog_load_errors_total per program moved by exactly the number of such events in the history",
+  "all applicable histories of length <=4 (thorough 5) over {append integer / non-integer line to log a or b, append a fragment (text, or a lone carriage return), truncate a log, write p.mtail as ok / runtime-error-raising / non-compiling / unregistrable version and reload, remove p.mtail and reload, poll} on the whole pipeline wired by mtail.New in tailing mode under the controlled scheduler, with and without a second program; after every step lines_total, log_lines_total per log, log_count, prog_runtime_errors_total, prog_loads_total, prog_unloads_total, prog_load_errors_total per program moved by exactly the number of such events in the history; after the pipeline is stopped the line counters have counted the pending fragments, once",
   "default schedule with quiescence barriers; counters read as deltas; reload = LoadAllPrograms called directly",
   "explicit-state exploration of the implementation over operation histories (multi-process BFS, replay from the initial state, event-count reference model)", "§3 C25"),
  ("C01", "mtlgen", "exploration",
@@ -95,11 +95,11 @@ CHECKS = [
   "the static part covers all inputs of each program but only the enumerated programs; its transfer functions are a hand-written mirror of vm.execute (typed pops, type assertions, datum accessors) and must follow changes to it; dynamic faults are classified by error message",
   "exhaustive bounded program enumeration; per program explicit-state model checking of the bytecode's abstract state space plus execution on the real VM with a fault classifier", "§3 C04"),
  ("C23", "mtlgen", "exploration",
-  "every checker-accepted program among: the typed families of C01; a format family (every declaration kind x hidden x as-renaming x 0-2 keys x limit x bucket lists incl. 1e-7 and 1e9 boundaries; string literals over {a, escaped quote, escaped backslash, \\n escape, blank} up to length 3 as values and index keys; 10 regexes with slashes/escapes in 4 positions; every pair of 11 arithmetic/bitwise operators with each explicit parenthesisation and none, against relational and logical operators; del/del-after, multi-key indexing, decorators, else/otherwise/stop, unary ~, small and negative literals, builtins); the example programs (about 6 200 programs): parse -> check -> unparse -> parse gives a structurally equal syntax tree (reflection over every exported field of the ast node types except positions, symbols, scopes, types), and formatting the result again gives identical text",
+  "every checker-accepted program among: the typed families of C01; a format family (every declaration kind x hidden x as-renaming x 0-2 keys x limit x bucket lists incl. 1e-7 and 1e9 boundaries; string literals over {a, escaped quote, escaped backslash, \\n escape, blank} up to length 3 as values and index keys; 10 regexes with slashes/escapes in 4 positions; every pair of 11 arithmetic/bitwise operators with each explicit parenthesisation and none, against relational and logical operators; del/del-after, multi-key indexing, decorators, else/otherwise/stop, unary ~, small and negative literals, builtins); the example programs (about 6 200 programs): parse -> check -> unparse -> parse gives a structurally equal syntax tree (reflection over every exported field of the ast node types except positions, symbols, scopes, types), and formatting the result again gives identical text; the mfmt command built from the tree prints, and with -write leaves in the file, exactly that text (every program containing '%' and every 16th of the others)",
   "the comparison is on unchecked parse trees (the checker's inserted conversions are not syntax)",
   "exhaustive bounded program enumeration with a round-trip oracle on the real parser, checker and formatter", "§3 C23"),
  ("C24", "mtlgen", "exploration",
-  "every single-site mutant of the accepted programs of the C01 families (quick: every k-th program of each family, about 400 bases and 10 000 mutants; thorough: all, about 12 300 bases) for the defect kinds {undeclared metric, capture index too high, unknown capture name, capture used in a sibling block, undefined decorator, next outside a decorator, one index key too many / too few, redeclared name, unused declaration, invalid regular expression, regular expression over the length limit, integer division / modulus by the literal 0}: Compile returns errors and no code, at least one error position lies inside the source (file name, 1<=line<=lines, 1<=column<=line length+1), and Runtime.CompileAndRun refuses the program (error, no VM, prog_load_errors_total +1)",
+  "every single-site mutant of the accepted programs of the C01 families (quick: every k-th program of each family, about 400 bases and 10 000 mutants; thorough: all, about 12 300 bases) for the defect kinds {undeclared metric, capture index too high, unknown capture name, capture used in a sibling block, undefined decorator, next outside a decorator, one index key too many / too few, redeclared name, unused declaration, invalid regular expression, regular expression over the length limit (as one literal; as a literal plus a constant fragment, each within the limit, in three arrangements), integer division / modulus by the literal 0, and three of these defects inside an operand multiplied by the literal 0}: Compile returns errors and no code, at least one error position lies inside the source (file name, 1<=line<=lines, 1<=column<=line length+1), and Runtime.CompileAndRun refuses the program (error, no VM, prog_load_errors_total +1)",
   "mutation sites are the nodes of the generator's own syntax trees; decorator definitions themselves are not mutated",
   "exhaustive single-site mutation of an enumerated program corpus on the real compiler and loader", "§3 C24"),
  ("C11", "gosim", "exploration",
